@@ -342,6 +342,7 @@ class Ctx:
         self.assumptions = []
         self._distinct = set()
         self.quick = tier == "quick"
+        self.last_case = None
 
     def count(self, key, n=1):
         d = self.cov["distribution"]
@@ -349,6 +350,7 @@ class Ctx:
 
     def case(self, canon_text, nontrivial):
         self.cov["evaluations"] += 1
+        self.last_case = canon_text
         if nontrivial:
             h = hashlib.blake2b(canon_text.encode() if isinstance(canon_text, str) else canon_text, digest_size=8).digest()
             self._distinct.add(h)
@@ -480,6 +482,47 @@ def model_result(rep):
     if isinstance(rep, list) and rep and rep[0] == -1:
         return ("err", ERR_CODES.get(rep[1], "code%d" % rep[1]))
     return ("ok",) + tuple(rep[1:])
+
+
+def start_watchdog(ctx, state):
+    """A check must end: when the wall-clock budget (VERIF_BUDGET_S; default 30 min quick, 4 h thorough) or 8 GB of resident
+    memory is exceeded -- the implementation loops or explodes on some generated input -- the check reports that as a finding
+    (with the main thread's stack and the last completed case) and exits, instead of hanging."""
+    import threading
+    import traceback
+    budget = float(os.environ.get("VERIF_BUDGET_S") or (1800 if ctx.quick else 4 * 3600))
+    max_rss = 8 << 30
+    main_id = threading.main_thread().ident
+
+    def loop():
+        while True:
+            time.sleep(2)
+            try:
+                rss = int(open("/proc/self/statm").read().split()[1]) * os.sysconf("SC_PAGE_SIZE")
+            except Exception:  # noqa: BLE001
+                rss = 0
+            if ctx.elapsed() <= budget and rss <= max_rss:
+                continue
+            why = ("resident memory reached %.1f GB" % (rss / 2 ** 30)) if rss > max_rss else ("not finished after %d s" % budget)
+            fr = sys._current_frames().get(main_id)
+            stack = "".join(traceback.format_stack(fr)[-14:]) if fr else ""
+            in_impl = "/gtirb/" in stack.split("harness/")[-1]
+            last = ctx.last_case
+            last = last.decode(errors="replace") if isinstance(last, bytes) else (last if isinstance(last, str) else repr(last))
+            ctx.add("corr", "no-termination", "the check did not end (%s)%s; see the stack and the last completed case" %
+                    (why, ": the implementation does not return on a generated input" if in_impl else ""),
+                    {"why": why, "main_thread_stack": stack[-5000:], "last_completed_case": (last or "")[:6000]})
+            try:
+                rc = finish(ctx, state.get("props_res"), state.get("binfo"), level=state.get("level", "proof"),
+                            extra_trusted=state.get("trusted", ()))
+            except Exception:  # noqa: BLE001
+                traceback.print_exc()
+                rc = 1
+            sys.stdout.flush()
+            os._exit(rc or 1)
+
+    t = threading.Thread(target=loop, daemon=True)
+    t.start()
 
 
 class ImplTimeout(Exception):
